@@ -56,7 +56,20 @@ normalised 256-bit significand rounded up, with its binary exponent. -/
 theorem innertable_rows :
     (List.range 128).all (fun k =>
       binRowOk (innerPow k) (sext64 (Dec.Gen.BID_INNERTABLE_EXP.getD k 0)) (entry Dec.Gen.BID_INNERTABLE_SIG 4 k)) = true := by
-  decide +kernel
+  have lo : (List.range 64).all (fun k =>
+      binRowOk (innerPow k) (sext64 (Dec.Gen.BID_INNERTABLE_EXP.getD k 0)) (entry Dec.Gen.BID_INNERTABLE_SIG 4 k)) = true := by
+    decide +kernel
+  have hi : (List.range 64).all (fun k =>
+      binRowOk (innerPow (k + 64)) (sext64 (Dec.Gen.BID_INNERTABLE_EXP.getD (k + 64) 0))
+        (entry Dec.Gen.BID_INNERTABLE_SIG 4 (k + 64))) = true := by
+    decide +kernel
+  rw [List.all_eq_true] at lo hi ⊢
+  intro k hk
+  have hk' := List.mem_range.1 hk
+  by_cases h : k < 64
+  · exact lo k (List.mem_range.2 h)
+  · obtain ⟨j, rfl⟩ : ∃ j, k = j + 64 := ⟨k - 64, by omega⟩
+    exact hi j (List.mem_range.2 (by omega))
 
 theorem outertable_len : Dec.Gen.BID_OUTERTABLE_SIG.length = 4 * 80 ∧ Dec.Gen.BID_OUTERTABLE_EXP.length = 80 := by
   decide +kernel
